@@ -889,6 +889,19 @@ var watchdogSecs = 120
 // seed here so a hang can be replayed).
 var WatchdogNote string
 
+// watchdogGrace, when non-zero, is the number of seconds the watchdog allows
+// the step in progress instead of watchdogSecs; see WatchdogGrace.
+var watchdogGrace atomic.Int64
+
+// WatchdogGrace lets a harness announce that the step it is about to make is
+// known to take long in REAL time for a reason outside the simulation (for
+// example code under test that really allocates and clears gigabytes). The
+// allowance applies until the returned function is called.
+func WatchdogGrace(d time.Duration) (done func()) {
+	watchdogGrace.Store(int64(d / time.Second))
+	return func() { watchdogGrace.Store(0) }
+}
+
 func startWatchdog(s *Sim) {
 	go func() {
 		last := int64(-1)
@@ -906,7 +919,11 @@ func startWatchdog(s *Sim) {
 				idle = 0
 				last = b
 			}
-			if idle >= watchdogSecs {
+			limit := watchdogSecs
+			if g := int(watchdogGrace.Load()); g > limit {
+				limit = g
+			}
+			if idle >= limit {
 				buf := make([]byte, 1<<20)
 				n := runtime.Stack(buf, true)
 				fmt.Fprintf(os.Stderr, "HARNESS-ERROR watchdog: no scheduling step for %ds (step %d) %s\n%s\nHARNESS-ERROR watchdog (see top of this dump) %s\n", watchdogSecs, b, WatchdogNote, buf[:n], WatchdogNote)
